@@ -54,7 +54,7 @@ static int rate_band(long rate){ return rate<9000?0: rate<15000?1: rate<19000?2:
 /* ------------------------------------------------------------------ C04 */
 static const long c04_rates[]={8000,8999,9000,11025,14999,15000,16000,18999,19000,22050,25999,26000,32000,39999,40000,44100,
                                48000,49999,50000,64000,96000,192000,200000,44100,44100,48000};
-static const long c04_nfix[]={0,1,2,3,63,64,65,127,128,129,255,256,257,511,512,513,1023,1024,1025,2047,2048,2049,4095,4096,4097,
+static const long c04_nfix[]={0,1,2,3,4,7,8,9,12,15,16,17,31,32,33,63,64,65,127,128,129,255,256,257,511,512,513,1023,1024,1025,2047,2048,2049,4095,4096,4097,
                               8191,8192,8193,16383,16384,16385};
 static long vf_count(const unsigned char *d,size_t n,int seekmode,long *total,long *tell0,int *err,int readmode){
   OggVorbis_File vf; memsrc_t ms; memsrc_init(&ms,d,n,seekmode);
@@ -595,8 +595,8 @@ static void case_c15(const drvargs_t *a,long id){
           if(di.channels!=ch||di.rate!=rate) res_viol("C05","header-fields-differ","header says %d/%ld: %s",di.channels,di.rate,desc);
           vorbis_comment_clear(&dc); vorbis_info_clear(&di);
         }
-        static const long Ms[]={0,1,5000,700};
-        long M=Ms[rng_below(&r,4)]; if(ch>32 && M>700) M=700; long done=0, pk=0;
+        static const long Ms[]={0,1,5000,700,9,13,16,33};   /* incl. totals shorter than the encoder's extrapolation order */
+        long M=Ms[rng_below(&r,8)]; if(ch>32 && M>700) M=700; long done=0, pk=0;
         int sig= rng_chance(&r,0.4)?SIG_NOISE:(rng_chance(&r,0.5)?SIG_BURSTS:(rng_chance(&r,0.5)?SIG_OVER:SIG_ALT)); uint64_t ss=rng_next(&r);   /* incl. input hotter than full scale */
         ogg_int64_t lastg=-1; int overlong=0; int mistake= rng_chance(&r,0.25);   /* an application error in mid-stream: more samples reported than were requested */
         while(done<M){ long n=(long)rng_range(&r,1,2048); if(n>M-done) n=M-done; float **b=vorbis_analysis_buffer(&vd,(int)n);
@@ -733,6 +733,7 @@ static void case_c16(const drvargs_t *a,long id){
       int same=1;
       if(dc.comments!=n){ res_viol("C16","count-differs","read back %d, wrote %d",dc.comments,n); same=0; }
       else for(int i=0;i<n;i++){
+        if(!dc.user_comments[i]){ res_viol("C16","entry-is-null","entry %d of %d (length %d written) read back as a NULL pointer",i,n,cm[i].len); same=0; break; }
         if(dc.comment_lengths[i]!=cm[i].len || memcmp(dc.user_comments[i],cm[i].p,cm[i].len) || dc.user_comments[i][cm[i].len]!=0){ res_viol("C16","entry-differs","entry %d of %d: length %d vs %d",i,n,dc.comment_lengths[i],cm[i].len); same=0; break; }
       }
       if(n>=0 && dc.user_comments && dc.user_comments[dc.comments]!=NULL) res_viol("C16","list-not-null-terminated","n=%d",n);
